@@ -138,3 +138,11 @@ package parsigdb
 //@ callreq sub: a3 == clone && ncalls(signedSet.Clone) == ncalls(sub) + 1 && ncalls(db.StoreExternal) == 1
 //@ ensures result == nil ==> ncalls(db.StoreExternal) == 1
 //@ loop 1 invariant ncalls(signedSet.Clone) == ncalls(sub) && ncalls(db.StoreExternal) == 1
+
+// Trim: on expiry exactly the entries recorded for the expired duty are dropped, under the store's lock.
+//@ func (db *MemDB) Trim
+//@ props C07
+//@ callreq delete: ncalls(db.mu.Lock) == ncalls(db.mu.Unlock) + 1
+//@ loop 1 invariant ncalls(db.mu.Lock) == ncalls(db.mu.Unlock)
+//@ loop 2 invariant ncalls(db.mu.Lock) == ncalls(db.mu.Unlock) + 1
+
